@@ -144,8 +144,41 @@ def run(rep, work, rng, tier):
             lines.append(('P.set %s %d %s %d %s' % (ty, nd, ' '.join(map(str, dims)), k, ' '.join(vals))).replace('  ', ' ').rstrip())
             for t in 'CBIF': lines.append('P.as ' + t)
         cases.append(('reg%d' % i, lines)); nreg += 1
+    # containers with REPEATED names and look-up sequences that jump between containers: the first element of that name,
+    # whatever was looked up before and wherever
+    ndup = 0
+    for i in range(n):
+        base = [b'HEAD', b'LASI', b'RASI', b'X', b'x', b'X ']
+        conts = []
+        for _ in range(rng.choice([1, 2, 3])):
+            k = rng.choice([1, 2, 3, 4, 6]); conts.append([rng.choice(base) for _ in range(k)])
+        qs = []
+        for _ in range(rng.choice([3, 6, 10])):
+            ci = rng.randrange(len(conts)); qs.append((ci, rng.choice(conts[ci] + [b'NOPE'])))
+        line = ' '.join([str(len(conts))] + ['%d %s' % (len(cn), ' '.join(hx(x) for x in cn)) for cn in conts] + [str(len(qs))] + ['%d %s' % (ci, hx(q)) for ci, q in qs])
+        cases.append(('dup%d' % i, ['mk.pts ' + line, 'mk.chs ' + line])); ndup += 1
     sel = lambda ln: ln.startswith('get.') or ln.startswith('mk.') or ln.startswith('P.as')
     (c, _), (m, _), nd = common.correspondence(rep, work, cases, select=sel, label='look-ups')
+    # oracle for the repeated-name containers: index of the FIRST element whose (trimmed) name is the (exact) query
+    dupbad = 0
+    for cid, lines in cases:
+        if not cid.startswith('dup'): continue
+        cl, cs = c.get(cid, ([], 'missing'))
+        for ln, out in harness.split_ops(lines, cl):
+            t = ln.split(' '); i = 1; nc = int(t[i]); i += 1; conts = []
+            for _ in range(nc):
+                k = int(t[i]); i += 1; conts.append([harness.unhx(x).rstrip(b' ') for x in t[i:i + k]]); i += k
+            nq = int(t[i]); i += 1; exp = ['ok']
+            for _ in range(nq):
+                ci = int(t[i]); q = harness.unhx(t[i + 1]); i += 2
+                idx = next((j for j, nm in enumerate(conts[ci]) if nm == q), None)
+                exp.append('x' if idx is None else '%d:%d' % (idx, idx))
+            got = out[0] if out else '<none:%s>' % cs
+            if got != ' '.join(exp):
+                dupbad += 1
+                if dupbad <= 3:
+                    rep.violation('oracle', 'name look-ups in containers with repeated names returned %r, the first elements of those names are %r' % (got[:150], ' '.join(exp)[:150]),
+                                  script=[ln], signature='lookup:repeated-names')
     # oracle for the register histories
     regbad = 0
     for cid, lines in cases:
@@ -176,7 +209,7 @@ def run(rep, work, rng, tier):
             got = out[0] if out else '<none:%s>' % cs
             oc = got.split(' ')[0] + (' ' + got.split(' ')[1] if got.startswith('throw') else '')
             outcomes[oc] = outcomes.get(oc, 0) + 1
-            if cid.startswith('reg'): continue
+            if cid.startswith('reg') or cid.startswith('dup'): continue
             e = expect(ln, snaps[cid])
             if e is None: continue
             ok = got.startswith(e[1]) if isinstance(e, tuple) else got == e
@@ -187,4 +220,4 @@ def run(rep, work, rng, tier):
                                   script=[l for l in lines if not sel(l)] + [ln], signature='lookup:' + k)
     rep.coverage.update(dict(evaluations=ev, distinct_nontrivial=len(set(l for _, ls in cases for l in ls if sel(l))),
         rule='objects from %d random histories; on each, every container is accessed at {0..3, size-1, size, size+1, 2^32, 2^32+1, 2^63, 2^64-1} and by present/absent/case-variant/space-padded names; each result is compared with the model and with the documented result computed from the C++ snapshot; distinct = distinct look-up lines' % len(cases),
-        samples=[cases[0][1][-3:]] if cases else [], op_kinds=kinds, outcome_classes=outcomes, disagreements=nd, oracle_failures=bad + regbad, register_histories=nreg))
+        samples=[cases[0][1][-3:]] if cases else [], op_kinds=kinds, outcome_classes=outcomes, disagreements=nd, oracle_failures=bad + regbad + dupbad, register_histories=nreg, repeated_name_containers=ndup))
